@@ -52,6 +52,10 @@ func (p *ClonePool) Mark(v Value, flags MarkFlags) {
 		return
 	}
 	if !ok {
+		// v may still carry the finalizer of another pool (a value marked in
+		// one context and marked again in another): runtime.SetFinalizer aborts
+		// the process if a finalizer is already set, so clear it first.
+		setFinalizer(v, nil)
 		setFinalizer(v, p.goFinalizer)
 	}
 	c.value = v.Clone()
